@@ -137,11 +137,12 @@ CHECKS = {
             'ray_eliminate applies the documented filter; ray_quad stores both roots and every real root is one of them; ray_capsule (normal == NULL): '
             'the reported point lies on the capsule surface (side between the caps or the proper half of a cap sphere), per path; likewise ray_ellipsoid (on the '
             'ellipsoid), ray_cylinder (round side between the caps, or a flat cap within the radius) and ray_box (on a face, inside its rectangle; 5000 paths); '
-            'ray_map is the frame change mat\'(pnt-pos), mat\'vec; mju_rayGeom dispatches each geom type to its own routine with the right arguments (all six '
+            'for the sphere and the ellipsoid also: no nearer point of the ray lies on the surface, and -1 is returned only when the ray misses (direction not degenerate); '
+            'for the box: no nearer point lies on a face the ray is not parallel to; ray_map is the frame change mat\'(pnt-pos), mat\'vec; mju_rayGeom dispatches each geom type to its own routine with the right arguments (all six '
             'surface clauses carried through, unknown types are an error).',
             'Trusted: VC generator, clang, z3/cvc5. Assumed: per-geom ray routines are pure functions of the geom index; ngeom < 2^27; '
-            'normal == NULL in mj_ray and the shape routines; all geometry over the reals. Not covered (listed): nearest / no-hit for capsule, ellipsoid, '
-            'cylinder and box, mesh / hfield / SDF rays, mj_multiRay, BVH rays.',
+            'normal == NULL in mj_ray and the shape routines; all geometry over the reals. Not covered (listed): nearest / no-hit for capsule and cylinder, no-hit for the box, '
+            ' mesh / hfield / SDF rays, mj_multiRay, BVH rays.',
             'contracts + inductive loop invariant with ghost functions, z3 QF_FP/LIA+quantifiers, NRA'),
     'C31': ('DESIGN.md section 4 / C31',
             'Deductive proof on the real engine_io.c (all sizes, all buffer contents symbolic): (1) mj_validateReferences returning NULL '
